@@ -1316,7 +1316,15 @@ impl Value {
         let slice = PaddedSliceRead::new(buffer.as_mut_slice());
         let mut parser = Parser::new(slice).with_config(cfg);
         let mut vis = DocumentVisitor::new(json.len(), smut);
-        parser.parse_dom(&mut vis)?;
+        if let Err(err) = parser.parse_dom(&mut vis) {
+            // the copy has been rewritten by in-place unescaping: locate the error in the input
+            let offset = err.offset().min(json.len());
+            return Err(if err.line() == 0 {
+                err
+            } else {
+                crate::Error::syntax(err.error_code(), json, offset)
+            });
+        }
         let idx = parser.read.index();
         if idx > json.len() {
             // the value was closed by the padding, not by the input
